@@ -3,7 +3,7 @@
 #   tools/confirm_seed.sh <dir with patch.diff demo.rs> <demo path in repo> <crate>
 # prints: suite_with_patch=<pass/fail counts> demo_with_patch=FAIL|PASS demo_without_patch=PASS|FAIL
 D="$1"; DEMO="$2"; CRATE="$3"
-MR=/work/mutrepo
+MR=/work/mutrepo${SLOT:-}
 [ -d $MR ] || git -C /repo worktree add -q --detach $MR HEAD
 git -C $MR checkout -q --detach "$(git -C /repo rev-parse HEAD)"; git -C $MR checkout -q -- .; git -C $MR clean -fdq -e target
 T=$(basename "$DEMO" .rs)
